@@ -1017,6 +1017,20 @@ class StrEval:
             return ("parsed", v, e)
         # -- repo callables ---------------------------------------------------------------------------
         fv = self.eval(e.func, fc, env)
+        # a hand-written escaper: a chain of str.replace over one parameter (written out, or as a loop over a constant table)
+        fch = fv[1] if isinstance(fv, tuple) and fv and fv[0] in ("boundfn", "func") else None
+        if fch is not None and len(e.args) == 1 and not e.keywords:
+            ch_ = replace_chain(self.prog, fch)
+            if ch_ is not None:
+                inner = self._render(e.args[0], fc, env)
+                searches = [a_ for a_, _ in ch_]
+                bad = next(((a_, b_, c_) for i_, (a_, b_) in enumerate(ch_) for c_, _ in ch_[i_ + 1:] if c_ and c_ in b_), None)
+                if bad is not None:
+                    return _sanitise(inner, "broken:%r is replaced after %r has produced %r" % (bad[2], bad[0], bad[1]))
+                want = {"&": "&amp;", "<": "&lt;", ">": "&gt;"}
+                got = dict(ch_)
+                if all(got.get(k_) in (v_,) for k_, v_ in want.items()):
+                    return _sanitise(inner, "attr" if got.get('"') in ("&quot;", "&#34;", "&#x22;") else "text")
         args = [self._argval(a, fc, env) for a in e.args if not isinstance(a, ast.Starred)]
         kwargs = {k.arg: self._argval(k.value, fc, env) for k in e.keywords if k.arg}
         if isinstance(fv, tuple) and fv:
@@ -1054,6 +1068,70 @@ class StrEval:
         if vals:
             return alt(vals)
         return ("opaque", callnode)
+
+
+def replace_chain(prog, f):
+    """[(search, replacement), ...] in application order when `f` does nothing but apply str.replace with constant arguments to its
+    one string parameter and return the result (`return s.replace(a, b).replace(c, d)`, statements `s = s.replace(a, b)`, or
+    `for a, b in TABLE: s = s.replace(a, b)` over a constant table); None otherwise."""
+    node = f.node
+    ps = [x.arg for x in node.args.args if x.arg not in ("self", "cls")]
+    if len(ps) != 1:
+        return None
+    p = ps[0]
+    body = [s_ for s_ in node.body if not (isinstance(s_, ast.Expr) and isinstance(s_.value, ast.Constant))]
+    chain = []
+
+    def const_str(x, env=None):
+        v = prog.const(x, f.module, env, f.cls)
+        return v if isinstance(v, str) else None
+
+    def unchain(x):
+        """pairs of a `.replace(..).replace(..)` expression rooted in the parameter"""
+        out = []
+        while isinstance(x, ast.Call) and isinstance(x.func, ast.Attribute) and x.func.attr == "replace" and len(x.args) == 2 and not x.keywords:
+            a_, b_ = const_str(x.args[0]), const_str(x.args[1])
+            if a_ is None or b_ is None:
+                return None
+            out.append((a_, b_))
+            x = x.func.value
+        if not (isinstance(x, ast.Name) and x.id == p):
+            return None
+        return out[::-1]
+
+    for st in body:
+        if isinstance(st, ast.Assign) and len(st.targets) == 1 and isinstance(st.targets[0], ast.Name) and st.targets[0].id == p:
+            u = unchain(st.value)
+            if not u:
+                return None
+            chain += u
+        elif isinstance(st, ast.For) and not st.orelse and len(st.body) == 1 and isinstance(st.target, ast.Tuple) and len(st.target.elts) == 2 \
+                and all(isinstance(t_, ast.Name) for t_ in st.target.elts):
+            tbl = prog.const(st.iter.func.value if isinstance(st.iter, ast.Call) and isinstance(st.iter.func, ast.Attribute)
+                             and st.iter.func.attr == "items" and not st.iter.args else st.iter, f.module, None, f.cls)
+            if isinstance(tbl, dict):
+                tbl = list(tbl.items())
+            b0 = st.body[0]
+            a_n, b_n = st.target.elts[0].id, st.target.elts[1].id
+            ok_ = isinstance(b0, ast.Assign) and len(b0.targets) == 1 and isinstance(b0.targets[0], ast.Name) and b0.targets[0].id == p \
+                and isinstance(b0.value, ast.Call) and isinstance(b0.value.func, ast.Attribute) and b0.value.func.attr == "replace" \
+                and isinstance(b0.value.func.value, ast.Name) and b0.value.func.value.id == p and len(b0.value.args) == 2 \
+                and [getattr(x, "id", None) for x in b0.value.args] == [a_n, b_n]
+            if not ok_ or not isinstance(tbl, (list, tuple)) or not all(
+                    isinstance(r_, tuple) and len(r_) == 2 and all(isinstance(y, str) for y in r_) for r_ in tbl):
+                return None
+            chain += [tuple(r_) for r_ in tbl]
+        elif isinstance(st, ast.Return) and st is body[-1]:
+            if isinstance(st.value, ast.Name) and st.value.id == p:
+                pass
+            else:
+                u = unchain(st.value)
+                if not u:
+                    return None
+                chain += u
+        else:
+            return None
+    return chain or None
 
 
 def _binding_only(st):
